@@ -8,6 +8,7 @@ import (
 	"go/constant"
 	"go/token"
 	"go/types"
+	"os"
 	"sort"
 	"strings"
 )
@@ -57,6 +58,8 @@ type Verifier struct {
 	siteCount    map[string]int
 	negRefs      int
 	caseTag      string
+	nonNegSeen   map[int]bool
+	assumed      map[string]bool
 	topFrame     *Frame
 	frameTargets []ModTarget
 	pathSeq      map[string]int
@@ -192,12 +195,29 @@ func (v *Verifier) execBlock(fr *Frame, st *State, stmts []ast.Stmt) []*State {
 				done = append(done, c)
 				continue
 			}
+			var after []*Cut
 			if fr.fi != nil && fr.fi.CutAt != nil && fr.depth == 0 {
 				for _, cut := range fr.fi.CutAt[s] {
-					v.doCut(fr, c, cut, s.Pos())
+					if cut.After {
+						after = append(after, cut)
+					} else {
+						v.doCut(fr, c, cut, s.Pos())
+					}
 				}
 			}
-			next = append(next, v.execStmt(fr, c, s)...)
+			outs := v.execStmt(fr, c, s)
+			for _, cut := range after {
+				for _, o := range outs {
+					if o.ctl == CtlNormal {
+						save := fr.scopeAt
+						fr.scopeAt = s.End()
+						o.assume(v.asBool(v.evalSpec(fr, o, cut.Clause.Expr), s.Pos()))
+						fr.scopeAt = save
+						v.assumed[fmt.Sprintf("%s: after %q assume %s", v.curFn, cut.Anchor, cut.Clause.Text)] = true
+					}
+				}
+			}
+			next = append(next, outs...)
 		}
 		cur = next
 		if len(cur)+len(done) > v.maxPaths {
@@ -323,6 +343,9 @@ func (v *Verifier) execStmt(fr *Frame, st *State, s ast.Stmt) []*State {
 			st.label = x.Label.Name
 		}
 		return []*State{st}
+	case *ast.SendStmt:
+		v.execSend(fr, st, x)
+		return []*State{st}
 	case *ast.GoStmt:
 		v.notes = append(v.notes, fmt.Sprintf("%s: go statement treated as no-op for the caller", v.prog.fset.Position(x.Pos())))
 		return []*State{st}
@@ -356,7 +379,7 @@ func (v *Verifier) declare(fr *Frame, st *State, obj *types.Var, val Val) {
 	}
 	st.vals[cell] = val
 	if st.log != nil {
-		st.log.cells[cell] = true
+		st.log.note(VarLoc{cell})
 	}
 }
 
@@ -371,7 +394,15 @@ func (v *Verifier) execAssign(fr *Frame, st *State, x *ast.AssignStmt) {
 		return
 	}
 	var vals []Val
-	if len(x.Rhs) == 1 && len(x.Lhs) > 1 {
+	if len(x.Rhs) == 1 && len(x.Lhs) == 2 {
+		if ta, ok := unparen(x.Rhs[0]).(*ast.TypeAssertExpr); ok {
+			vals = v.evalTypeAssert(fr, st, ta, true).(TupleVal).Vs
+		} else if ue, ok := unparen(x.Rhs[0]).(*ast.UnaryExpr); ok && ue.Op == token.ARROW {
+			vals = []Val{v.evalRecv(fr, st, ue), Scalar{v.eng.C.Fresh("recv#ok", BoolSort), types.Typ[types.Bool]}}
+		}
+	}
+	if vals != nil {
+	} else if len(x.Rhs) == 1 && len(x.Lhs) > 1 {
 		r := v.eval(fr, st, x.Rhs[0])
 		tv, ok := r.(TupleVal)
 		if !ok {
@@ -497,7 +528,7 @@ func (v *Verifier) joinNormals(base *State, outs []*State) []*State {
 			others = append(others, o)
 		}
 	}
-	if len(normals) > 1 {
+	if len(normals) > 1 && os.Getenv("GOVC_NOJOIN") == "" {
 		normals = v.eng.join(base, normals)
 	}
 	return append(others, normals...)
@@ -674,7 +705,7 @@ func (v *Verifier) execLoop(fr *Frame, st *State, node ast.Node, pos token.Pos, 
 		v.obligeNamed(fr, st, fmt.Sprintf("loop%d.inv%d.entry", ord, cl.Ord), pos, t, "loop invariant holds on entry: "+cl.Text)
 	}
 	// 2. discover the write set with a muted dry run
-	log := &WriteLog{cells: map[*Cell]bool{}, heaps: map[string]bool{}}
+	log := newWriteLog()
 	{
 		d := st.fork()
 		d.log = log
@@ -709,7 +740,21 @@ func (v *Verifier) execLoop(fr *Frame, st *State, node ast.Node, pos token.Pos, 
 			panic(unsupportedf(pos, "loop modifies static pointer variable %s", cell.Name))
 		}
 		var wf []*Term
-		h.vals[cell] = v.eng.freshVal(cell.Sh, fmt.Sprintf("%s@L%d", cell.Name, ord), &wf)
+		whole := false
+		for _, p := range log.paths[cell] {
+			if p == nil {
+				whole = true
+			}
+		}
+		if whole || len(log.paths[cell]) == 0 {
+			h.vals[cell] = v.eng.freshVal(cell.Sh, fmt.Sprintf("%s@L%d", cell.Name, ord), &wf)
+		} else {
+			cur := h.vals[cell]
+			for _, p := range log.paths[cell] {
+				cur = v.havocPath(cur, p, fmt.Sprintf("%s@L%d", cell.Name, ord), &wf)
+			}
+			h.vals[cell] = cur
+		}
 		for _, w := range wf {
 			h.assume(w)
 		}
@@ -784,6 +829,24 @@ func (v *Verifier) execLoop(fr *Frame, st *State, node ast.Node, pos token.Pos, 
 		}
 	}
 	return v.joinNormals(base, outs)
+}
+
+// havocPath replaces the sub-value of val at the field path by a fresh value.
+func (v *Verifier) havocPath(val Val, path []int, name string, wf *[]*Term) Val {
+	sv, ok := val.(StructVal)
+	if !ok || len(path) == 0 {
+		sh := shapeOfVal(val)
+		if s, isS := val.(Scalar); isS {
+			sh = v.eng.shapeOf(s.Typ)
+		}
+		if p, isP := val.(PtrVal); isP && p.Loc != nil {
+			return val
+		}
+		return v.eng.freshVal(sh, name, wf)
+	}
+	n := StructVal{Sh: sv.Sh, F: append([]Val{}, sv.F...)}
+	n.F[path[0]] = v.havocPath(sv.F[path[0]], path[1:], name+"."+sv.Sh.FNames[path[0]], wf)
+	return n
 }
 
 func bodyPos(body []ast.Stmt, def token.Pos) token.Pos {
@@ -879,6 +942,32 @@ func (v *Verifier) execRange(fr *Frame, st *State, x *ast.RangeStmt, label strin
 			break
 		}
 		panic(unsupportedf(x.Pos(), "range over string"))
+	case *types.Chan:
+		// a loop draining a channel: supported when the body writes nothing the caller can see
+		v.eval(fr, st, x.X)
+		log := newWriteLog()
+		d := st.fork()
+		d.log = log
+		if id, ok := x.Key.(*ast.Ident); ok && x.Tok == token.DEFINE && id.Name != "_" {
+			if obj, _ := fr.pkg.TypesInfo.Defs[id].(*types.Var); obj != nil {
+				var wf []*Term
+				v.declare(fr, d, obj, v.eng.freshVal(v.eng.shapeOf(obj.Type()), "recv", &wf))
+				delete(log.cells, fr.vars[obj])
+			}
+		}
+		v.muted++
+		v.execBlock(fr, d, x.Body.List)
+		v.muted--
+		for c := range log.cells {
+			if _, live := st.vals[c]; live {
+				panic(unsupportedf(x.Pos(), "range over channel whose body modifies %s", c.Name))
+			}
+		}
+		if len(log.heaps) > 0 {
+			panic(unsupportedf(x.Pos(), "range over channel whose body modifies the heap"))
+		}
+		v.notes = append(v.notes, v.prog.fset.Position(x.Pos()).String()+": loop draining a channel has no effect on the caller's state; its termination is assumed")
+		return []*State{st}
 	default:
 		panic(unsupportedf(x.Pos(), "range over %s", xt))
 	}
